@@ -129,6 +129,18 @@ CLAIMED = {
         technique="Rocq proof (finite-state evaluation lifted by induction over histories) + translator-regenerated control programs and machine + in-Coq differential correspondence on a real handler",
         design="5/C11",
     ),
+    "C12": dict(
+        text="Theorems (Props/C12.v), for every history and every id domain: integrity (every linked report exists; C12_integrity, by invariant over all operation "
+             "sequences), S6F15 never aborts in a reachable configuration (C12_request_never_aborts), the report of a linked enabled event is exactly its linked "
+             "reports in link order with the current values and S6F15 = S6F11 (C12_report_wellformed), a refused S2F33/S2F35 changes nothing "
+             "(C12_refused_changes_nothing), and every S2F33/S2F35 step - accepted or refused, delete-one and delete-all forms included - is one an independent E5 "
+             "reference admits (C12_accepted_effect: the pre-check loops 'as written' are shown equivalent to E5's validity conditions, the apply loops to E5's "
+             "entry-wise effect). Tied to the code by driving a real equipment handler through random and directed histories and comparing replies and both dicts.",
+        note=NOTE_COMMON + " S2F37 with a listed CEID set is covered by the invariant theorems and the correspondence, not by C12_accepted_effect; the whole model is hand-written "
+             "(no translator for this file).",
+        technique="Rocq proof (invariant + refinement of an E5 reference, unbounded ids and histories) + in-Coq differential correspondence on a real handler",
+        design="5/C12",
+    ),
 }
 
 NOT_YET = {}
